@@ -28,6 +28,10 @@ type c03Event struct {
 	Identity bool     `json:"map_identity,omitempty"`
 	G        *Grammar `json:"g,omitempty"`
 	Input    string   `json:"input,omitempty"`
+	// Reuse (memo / warm events): parse with the grammar object built by the previous memo
+	// event instead of building a twin - state kept on the grammar value across parses is
+	// part of the history
+	Reuse bool `json:"reuse,omitempty"`
 }
 
 type c03Case struct {
@@ -193,7 +197,7 @@ func (*c03Prop) Gen(r *Rand, pl *Plan) Case {
 			c.History = append(c.History, c03Event{Kind: "plain", Order: randPerm(r, n), MapSeed: r.U64()})
 			c.History = append(c.History, c03Event{Kind: "memo", Order: randPerm(r, n), Churn: r.Intn(5), MapSeed: r.U64(), Identity: r.Chance(1, 6)})
 		}
-		c.History = append(c.History, c03Event{Kind: "memo", Order: randPerm(r, n), MapSeed: r.U64()})
+		c.History = append(c.History, c03Event{Kind: "memo", Order: randPerm(r, n), MapSeed: r.U64(), Reuse: r.Bool()})
 		return c
 	}
 	if pl.Variant == 1 {
@@ -229,7 +233,12 @@ func (*c03Prop) Gen(r *Rand, pl *Plan) Case {
 		if r.Chance(1, 8) {
 			ch = r.Range(40, 600) // large index gaps: parser indexes far from the small values a fresh process hands out
 		}
-		evs = append(evs, c03Event{Kind: "memo", Order: randPerm(r, n), Churn: ch, MapSeed: r.U64(), Identity: r.Chance(1, 6)})
+		evs = append(evs, c03Event{Kind: "memo", Order: randPerm(r, n), Churn: ch, MapSeed: r.U64(), Identity: r.Chance(1, 6), Reuse: r.Chance(1, 3)})
+		if r.Chance(1, 4) {
+			for k := r.Range(1, 3); k > 0; k-- {
+				evs = append(evs, c03Event{Kind: "warm", Input: c.G.genInput(r, alphabet, 12), MapSeed: r.U64()})
+			}
+		}
 	}
 	for k := r.Intn(3); k > 0; k-- {
 		og := genGrammar(r, &genOpts{MaxNodes: 8, Alphabet: alphabet, Trims: true, MemoChance: 50})
@@ -389,7 +398,12 @@ func newCtx(input string, prefix int) *parsley.Context {
 }
 
 // parseOnce builds the grammar and parses the input on a fresh context.
-func c03ParseOnce(g *Grammar, input string, prefix int, memo bool, e *c03Event, shim bool, long bool) (o c03Obs) {
+type c03Built struct {
+	b  *built
+	st *guardState
+}
+
+func c03ParseOnce(g *Grammar, input string, prefix int, memo bool, e *c03Event, shim bool, long bool, keep **c03Built) (o c03Obs) {
 	defer func() {
 		if r := recover(); r != nil {
 			if d, ok := r.(discard); ok {
@@ -405,8 +419,18 @@ func c03ParseOnce(g *Grammar, input string, prefix int, memo bool, e *c03Event, 
 	}()
 	sim.SetMapSeed(e.MapSeed, e.Identity)
 	churn(e.Churn)
-	st := newGuard(long)
-	b := build(g, &buildOpts{Memo: memo, Order: e.Order, CloneBeforeRTrim: shim, Wrap: guardWrap(st, memo)})
+	var st *guardState
+	var b *built
+	if keep != nil && *keep != nil && e.Reuse {
+		b, st = (*keep).b, (*keep).st
+		*st = *newGuard(long) // the wrappers hold st: reset the per-parse counters in place
+	} else {
+		st = newGuard(long)
+		b = build(g, &buildOpts{Memo: memo, Order: e.Order, CloneBeforeRTrim: shim, Wrap: guardWrap(st, memo)})
+		if keep != nil {
+			*keep = &c03Built{b, st}
+		}
+	}
 	ctx := newCtx(input, prefix)
 	n, _, err := b.Root.Parse(ctx, data.EmptyIntMap, ctx.Reader().Pos(0))
 	var over bool
@@ -448,15 +472,16 @@ const c03Known = "C03-rtrim-readerpos"
 // c03Judge runs the history and returns the first violated clause.
 func c03Judge(c *c03Case, shim bool, v *Verdict) (class, detail string) {
 	var plain, memo *c03Obs
+	var lastMemo *c03Built
 	for i := range c.History {
 		e := &c.History[i]
 		switch e.Kind {
 		case "other":
-			o := c03ParseOnce(e.G, e.Input, 0, true, e, shim, false)
+			o := c03ParseOnce(e.G, e.Input, 0, true, e, shim, false, nil)
 			_ = o
 			v.Probes["other_grammar_parses"]++
 		case "plain":
-			o := c03ParseOnce(c.G, c.Input, c.Prefix, false, e, shim, c.Long)
+			o := c03ParseOnce(c.G, c.Input, c.Prefix, false, e, shim, c.Long, nil)
 			if o.discard != "" {
 				return "discard", o.discard
 			}
@@ -466,8 +491,19 @@ func c03Judge(c *c03Case, shim bool, v *Verdict) (class, detail string) {
 			} else if o.visible() != plain.visible() || o.calls != plain.calls {
 				return "determinism:plain", fmt.Sprintf("two parses of the un-memoised build differ:\n  first: %s calls=%d\n  later: %s calls=%d", clip(plain.visible()), plain.calls, clip(o.visible()), o.calls)
 			}
+		case "warm":
+			// another input parsed with the grammar object of the previous memo event
+			if lastMemo != nil {
+				we := *e
+				we.Reuse = true
+				c03ParseOnce(c.G, e.Input, c.Prefix, true, &we, shim, c.Long, &lastMemo)
+				v.Probes["warm_parses_on_a_reused_grammar"]++
+			}
 		case "memo":
-			o := c03ParseOnce(c.G, c.Input, c.Prefix, true, e, shim, c.Long)
+			if e.Reuse && lastMemo != nil {
+				v.Probes["memo_parses_on_a_reused_grammar"]++
+			}
+			o := c03ParseOnce(c.G, c.Input, c.Prefix, true, e, shim, c.Long, &lastMemo)
 			if o.discard != "" {
 				return "discard", o.discard
 			}
@@ -546,7 +582,7 @@ func (*c03Prop) Shrink(cc Case) []Case {
 				cnt++
 			}
 		}
-		if e.Kind == "other" || cnt > 1 {
+		if e.Kind == "other" || e.Kind == "warm" || cnt > 1 {
 			k := clone()
 			k.History = append(append([]c03Event(nil), k.History[:i]...), k.History[i+1:]...)
 			out = append(out, k)
